@@ -42,7 +42,7 @@ func Mutate(t *rapid.T, base []byte, others [][]byte, fieldOffsets []int) ([]byt
 		cut := UniformRange(t, 0, len(b), "cut")
 		return b[:cut:cut], "truncate"
 	case 2:
-		ext := rapid.SliceOfN(rapid.Byte(), 1, 40).Draw(t, "ext")
+		ext := Bytes(t, 1, 40, "ext")
 		return append(b, ext...), "extend"
 	case 3:
 		if len(b) == 0 {
@@ -113,10 +113,10 @@ func Mutate(t *rapid.T, base []byte, others [][]byte, fieldOffsets []int) ([]byt
 		return append(b[:i:i], b[i+n:]...), "delete-chunk"
 	case 9:
 		i := UniformRange(t, 0, len(b), "i")
-		ins := rapid.SliceOfN(rapid.Byte(), 1, 64).Draw(t, "ins")
+		ins := Bytes(t, 1, 64, "ins")
 		return append(append(append([]byte{}, b[:i]...), ins...), b[i:]...), "insert-chunk"
 	case 10:
-		return rapid.SliceOfN(rapid.Byte(), 0, 80).Draw(t, "random"), "random"
+		return Bytes(t, 0, 80, "random"), "random"
 	default:
 		// two mutations in sequence
 		x, _ := Mutate(t, b, others, fieldOffsets)
@@ -198,9 +198,9 @@ func MutateParts(t *rapid.T, parts []Part, others [][]byte) ([]byte, string) {
 		}
 		class = "cut-tail"
 	case 3:
-		d, class = append(d, rapid.SliceOfN(rapid.Byte(), 1, 40).Draw(t, "ext")...), "extend"
+		d, class = append(d, Bytes(t, 1, 40, "ext")...), "extend"
 	case 4:
-		d, class = rapid.SliceOfN(rapid.Byte(), 0, 70).Draw(t, "rand"), "random"
+		d, class = Bytes(t, 0, 70, "rand"), "random"
 	case 5:
 		if len(d) > 0 {
 			bit := Uniform(t, len(d)*8, "bit")
